@@ -148,7 +148,9 @@ def gen_value(rng, t: dict, cmap: dict[str, dict], depth: int = 0) -> tuple[Any,
             v = rng.random() < 0.5
             return {"v": v}, v, False
         if ty == "bytes":
-            raw = rng.choice([b"", b"abc", b"\x00\xff\x10", b"hello world"])
+            # include values whose base64 text uses every part of the alphabet ('+', '/', '=' padding of both lengths)
+            raw = rng.choice([b"", b"abc", b"\x00\xff\x10", b"hello world", b"\xfb\xff", b"\xff\xff\xff", b"<<???>>",
+                              rng.randbytes(rng.randint(1, 24))])
             return {"bytes": raw.hex()}, base64.b64encode(raw).decode(), True
         if ty == "datetime":
             v = dt.datetime(2020 + rng.randint(0, 5), rng.randint(1, 12), rng.randint(1, 28), rng.randint(0, 23),
